@@ -691,7 +691,7 @@ impl Check for C03 {
         let mut out = match catch(directed_read_registered) {
             Ok(Ok(())) => vec![],
             Ok(Err(f)) => vec![(f, None)],
-            Err(p) => vec![(Failure::new(format!("harness-panic:{}", normalize_sig(&p)), p), None)],
+            Err(p) => vec![(crate::driver::panic_failure(p, "directed scenario"), None)],
         };
         // enumerated grid of two-thread gate schedules (src/gates.rs)
         let (st, fails) = crate::gates::run_grid(tier == Tier::Thorough, 8);
